@@ -344,7 +344,7 @@ func (w *World) structSort(t types.Type, u *types.Struct) Sort {
 	for i := 0; i < u.NumFields(); i++ {
 		f := u.Field(i)
 		fs := w.sortOf(f.Type())
-		dt.Fields = append(dt.Fields, dtField{Name: fmt.Sprintf("%s_%s", name, sanitize(f.Name())), Sort: fs, GoT: f.Type()})
+		dt.Fields = append(dt.Fields, dtField{Name: fmt.Sprintf("%s_%d%s", name, i, sanitize(f.Name())), Sort: fs, GoT: f.Type()})
 	}
 	w.dtOrder = append(w.dtOrder, name)
 	return Sort(name)
